@@ -1003,6 +1003,8 @@ func (f *Frame) execAlloc(in *ssa.Alloc, st *State) {
 		return
 	}
 	p := e.alloc(st)
+	// guarded_by: an object allocated by the function under verification is initialised before it is shared
+	e.freshObjs[p] = true
 	srt := e.sortOf(et)
 	st.heapP[srt] = e.define("hp", e.heapPSort(srt), fmt.Sprintf("(store %s %s %s)", e.getHeapP(st, srt), p, e.zero(et)))
 	f.set(in, Val{T: in.Type(), S: p, Loc: &Loc{Kind: LHeap, Base: p, RootT: et}})
@@ -1081,6 +1083,20 @@ func (f *Frame) execUnOp(in *ssa.UnOp, st *State) {
 				e.assumeTyping(st, v)
 				return
 			}
+			// a once-assigned captured variable: the value stored is the value loaded
+			if a, ok := in.X.(*ssa.Alloc); ok {
+				if refs := a.Referrers(); refs != nil {
+					for _, r := range *refs {
+						if sto, ok := r.(*ssa.Store); ok && sto.Addr == ssa.Value(a) {
+							if sv, ok := f.vals[sto.Val]; ok && sv.S != "" {
+								f.vals[in] = Val{T: in.Type(), S: sv.S}
+								e.stableLoads[key] = sv.S
+								return
+							}
+						}
+					}
+				}
+			}
 			v := f.defval(in, e.load(st, l))
 			e.stableLoads[key] = v.S
 			e.assumeTyping(st, v)
@@ -1131,6 +1147,7 @@ func (f *Frame) execStore(in *ssa.Store, st *State) {
 		return
 	}
 	e.guardCheck(f, st, l, true, in.Pos())
+	e.funcFieldStore(f, st, in, v)
 	e.siteAsserts(f, st, "store", l, v, in.Pos())
 	e.store(st, l, term)
 	if v.Fn != nil && l.Kind == LCell {
@@ -1646,6 +1663,45 @@ func (f *Frame) stableFieldKey(in *ssa.UnOp, l *Loc) (string, bool) {
 			}
 			if !stored {
 				return f.prefix + "|fv|" + fv.Name(), true
+			}
+		}
+		return "", false
+	}
+	// a variable that lives on the heap only because a closure captures it and that is assigned exactly once (the
+	// parameter spill): every load yields the same pointer
+	if a, ok := in.X.(*ssa.Alloc); ok {
+		switch in.Type().Underlying().(type) {
+		case *types.Pointer, *types.Map, *types.Chan:
+			stores := 0
+			if refs := a.Referrers(); refs != nil {
+				for _, r := range *refs {
+					if st, ok := r.(*ssa.Store); ok && st.Addr == ssa.Value(a) {
+						stores++
+					}
+				}
+			}
+			// closures that capture the variable could assign it as well
+			captured := false
+			if refs := a.Referrers(); refs != nil {
+				for _, r := range *refs {
+					if mc, ok := r.(*ssa.MakeClosure); ok {
+						fn := mc.Fn.(*ssa.Function)
+						for i, b := range mc.Bindings {
+							if b == ssa.Value(a) && i < len(fn.FreeVars) {
+								for _, blk := range fn.Blocks {
+									for _, instr := range blk.Instrs {
+										if st, ok := instr.(*ssa.Store); ok && st.Addr == ssa.Value(fn.FreeVars[i]) {
+											captured = true
+										}
+									}
+								}
+							}
+						}
+					}
+				}
+			}
+			if stores == 1 && !captured {
+				return f.prefix + "|alloc|" + a.Name(), true
 			}
 		}
 		return "", false
